@@ -279,6 +279,14 @@ func main() {
 						if !res.OK() || !bytes.Equal(res.Plain, plain) || res.AfterEOF != "" {
 							c.Fail("reference-file-does-not-decrypt", id, fmt.Sprintf("file written by the independent encoder is not decrypted: %s decrypt=%v read=%v", res.Class(), res.DecryptErr, res.ReadErr), nil)
 						}
+						// the same file read with a 1 MiB buffer and with io.Copy
+						for _, bs := range []int{1 << 20, -1} {
+							c.Eval(1)
+							res := lab.Decrypt(bytes.NewReader(file), armored, bs, r.key.Id)
+							if !res.OK() || !bytes.Equal(res.Plain, plain) || res.AfterEOF != "" {
+								c.Fail("reference-file-does-not-decrypt/large-reads", fmt.Sprintf("%s/buf%d", id, bs), fmt.Sprintf("file written by the independent encoder is not decrypted when read with a 1 MiB buffer / io.Copy: %s decrypt=%v read=%v", res.Class(), res.DecryptErr, res.ReadErr), nil)
+							}
+						}
 					}
 				}
 			}
@@ -384,6 +392,9 @@ func main() {
 					res := lab.DecryptBytes(file, e.Armored, ids[i])
 					if !res.OK() || len(res.Plain) != e.PlainLen || sha(res.Plain) != e.PlainSHA {
 						c.Fail("frozen-file-no-longer-decrypts", id, fmt.Sprintf("corpus file %s (%s): %s decrypt=%v read=%v len=%d", e.File, e.Producer, res.Class(), res.DecryptErr, res.ReadErr, len(res.Plain)), nil)
+					}
+					if res2 := lab.Decrypt(bytes.NewReader(file), e.Armored, 1<<20, ids[i]); !res2.OK() || sha(res2.Plain) != e.PlainSHA {
+						c.Fail("frozen-file-no-longer-decrypts/large-reads", id+"/buf1M", fmt.Sprintf("corpus file %s read with a 1 MiB buffer: %s decrypt=%v read=%v", e.File, res2.Class(), res2.DecryptErr, res2.ReadErr), nil)
 					}
 					// the reference must agree too (keeps the reference honest)
 					bin := file
